@@ -170,10 +170,10 @@ Definition save_pdb (level : Z) (f : pdbfile) : text :=
    | Some c =>
        let g k := nth k c (FFin 0 0) in
        let sym := match pf_sym f with
-                  | Some i => (pad_right 10 (sym_hm i) ++ pad_left 3 (sym_z i))%list
-                  | None => S_ "P 1         1" end in
+                  | Some i => (pad_right 11 (sym_hm i) ++ pad_left 4 (sym_z i))%list
+                  | None => S_ "P 1           1" end in
        pl [(6%nat, S_ "CRYST1"); (9%nat, fixed 9 3 (g 0%nat)); (9%nat, fixed 9 3 (g 1%nat)); (9%nat, fixed 9 3 (g 2%nat));
-           (7%nat, fixed 7 2 (g 3%nat)); (7%nat, fixed 7 2 (g 4%nat)); (7%nat, fixed 7 2 (g 5%nat)); (0%nat, sp 2); (0%nat, sym)]
+           (7%nat, fixed 7 2 (g 3%nat)); (7%nat, fixed 7 2 (g 4%nat)); (7%nat, fixed 7 2 (g 5%nat)); (0%nat, sp 1); (0%nat, sym)]
    | None => []
    end ++
    match pf_origx f with
